@@ -175,6 +175,23 @@ def trace_config(h, mesh, spec, pt=None, free=None, via='ifb', point='sym', c1=F
         bdim = dim - 1
         fams = comp_families(e)
         f2t = np.asarray(m.f2t)
+        # the entity tables the orientation rests on: one facet column per distinct local facet of the cells, neighbours contain it
+        if dim > 1:
+            tv = np.asarray(m.t)[:m.refdom.nnodes]
+            fac_t = np.asarray(m.facets)
+            own = {}
+            for K in range(tv.shape[1]):
+                for lf in np.asarray(m.refdom.facets):
+                    own.setdefault(tuple(sorted(int(tv[a, K]) for a in lf)), []).append(K)
+            listed = [tuple(sorted(int(v) for v in fac_t[:, f])) for f in range(fac_t.shape[1])]
+            ok_tab = sorted(listed) == sorted(own) and len(set(listed)) == len(listed)
+            ok_nb = ok_tab and all(sorted(int(K) for K in f2t[:, f] if K != -1) == sorted(own[listed[f]]) for f in range(fac_t.shape[1]))
+            h.concrete('facet table lists every distinct facet of the cells exactly once', ok_tab, '%d listed, %d distinct' % (len(listed), len(own)))
+            h.concrete('f2t lists exactly the cells containing each facet', ok_nb)
+            if not (ok_tab and ok_nb):
+                t_ = h.sym('t', ())
+                h.zero('trivial', t_ - t_)
+                return
         ifac = np.nonzero(f2t[1] != -1)[0]
         if len(ifac) == 0:
             raise Skip('no interior facet')
@@ -320,6 +337,17 @@ def build_configs(tier, seed):
     # sort_t switched off: only elements with one DOF per facet are inside the claim
     for spec in ['ElementTriP2', 'ElementTriRT1', 'ElementTriN1']:
         add('tri2/sort_t=False/%s' % spec, mesh='tri2', spec=spec, pt=renumbered('tri2', (3, 1, 0, 2)), sort_t=False)
+    # ... in every local vertex order of the two cells (counter-clockwise pairs traverse the shared edge in opposite directions)
+    perms3 = list(itertools.permutations(range(3)))
+    cname, p_, t_ = topo('tri2')
+    for ia, pa in enumerate(perms3):
+        for ib, pb in enumerate(perms3):
+            t2 = t_.copy()
+            t2[:, 0] = t_[list(pa), 0]
+            t2[:, 1] = t_[list(pb), 1]
+            for spec in ['ElementTriP2', 'ElementTriRT1', 'ElementTriN1', 'ElementTriRT0', 'ElementTriCR']:
+                add('tri2/sort_t=False/local=%s-%s/%s' % (''.join(map(str, pa)), ''.join(map(str, pb)), spec), mesh='tri2', spec=spec,
+                    pt=(cname, p_, t2), sort_t=False, **(dict(point='mid') if spec == 'ElementTriCR' else {}))
     # --- two quadrilaterals, all 4 x 4 cyclic shifts ------------------------------------------------------------------------------------------
     for r0 in range(4):
         for r1 in range(4):
@@ -330,6 +358,13 @@ def build_configs(tier, seed):
                 piola = spec in ('ElementQuadRT1', 'ElementQuadN1')
                 add('quad2/shift=%d%d/%s' % (r0, r1, spec), mesh='quad2', spec=spec, pt=shifted('quad2', (r0, r1)), via='direct',
                     free=([2] if piola else None), timeout=600 if quick else 2400)
+    # --- 2 x 2 patch around an interior vertex (corner vertices carry the highest labels): cyclic shifts of the four cells ------------------
+    shifts4 = ([(0, 0, 0, 0), (0, 3, 1, 0), (0, 3, 1, 2), (1, 2, 3, 0), (2, 2, 1, 3), (3, 1, 0, 1)] if quick
+               else list(itertools.product(range(4), repeat=4)))
+    for sh in shifts4:
+        for spec in ['ElementQuadRT1', 'ElementQuad2'] + ([] if quick else ['ElementQuadN1']):
+            add('quad4grid/shift=%s/%s' % (''.join(map(str, sh)), spec), mesh='quad4grid', spec=spec, pt=shifted('quad4grid', sh), via='direct',
+                free=[1], timeout=900 if quick else 3000)
     # --- two tetrahedra: vertex numberings ---------------------------------------------------------------------------------------------------
     perms5 = list(itertools.permutations(range(5)))
     sel = [perms5[i] for i in (sorted(rng.choice(len(perms5), 12, replace=False)) if quick else range(len(perms5)))]
@@ -364,7 +399,7 @@ META = dict(
                 'derivative / vertex gradients.  Simplices: traces produced by the real InteriorFacetBasis(side=0/1, quadrature=(S, W)); '
                 'quadrilaterals/hexahedra: gbasis + element_dofs at reference points on either side that provably map to the same point.',
     symbolic='vertex coordinates, coefficient vector, facet point',
-    bounds=dict(tri='two triangles in all 24 vertex numberings, 3-cell fan', quad='two quadrilaterals, all 16 cyclic shifts',
+    bounds=dict(tri='two triangles in all 24 vertex numberings, 3-cell fan', quad='two quadrilaterals, all 16 cyclic shifts; 2x2 patch in 6 (thorough: all 256) shift combinations',
                 tet='two tetrahedra, 12 (thorough: all 120) numberings; quick: one free vertex', hex='two hexahedra, 24 rotations of the second, numeric geometry',
                 histories='element object reused on a renumbered mesh; mesh after adaptive refinement; sort_t=False for one-DOF-per-facet elements'),
     outside=['curved meshes', 'larger meshes', 'ElementTriN3 through FacetBasis (its gbasis rejects per-cell point arrays; covered by the direct route)',
